@@ -40,23 +40,21 @@ int fk_errcode(const char * name)	/* index into the tables, -1 if unknown */
 }
 
 /* ------------------------------------------------------------------ log */
-static char * fk_logbuf; static size_t fk_loglen, fk_logcap;
+static int fk_logged;
 unsigned long fk_activity;		/* bumped by every wrapper call and by the driver's callbacks */
 
+/* tokens go straight to (unbuffered) stdout so that a crash keeps what was observed so far */
 void fk_log(const char * fmt, ...)
 {
-	va_list ap; int n;
-	if (fk_logcap - fk_loglen < 256) {
-		fk_logcap = fk_logcap ? fk_logcap * 2 : 4096;
-		fk_logbuf = __real_realloc(fk_logbuf, fk_logcap);
-	}
-	if (fk_loglen) fk_logbuf[fk_loglen++] = ' ';
+	va_list ap; char tmp[300]; int n;
 	va_start(ap, fmt);
-	n = vsnprintf(fk_logbuf + fk_loglen, 250, fmt, ap);
+	n = vsnprintf(tmp + 1, sizeof(tmp) - 1, fmt, ap);
 	va_end(ap);
-	fk_loglen += (size_t)n;
+	(void)n;
+	tmp[0] = ' ';
+	fputs(fk_logged ? tmp : tmp + 1, stdout);
+	fk_logged = 1;
 }
-const char * fk_logtext(void) { if (!fk_logbuf) return ""; fk_logbuf[fk_loglen] = 0; return fk_logbuf; }
 
 /* bytes -> hex (<= 16 bytes) or #fnv64 */
 static uint8_t fk_pat(int salt, size_t p) { return (uint8_t)((p * 131 + (p >> 8) * 17 + (size_t)salt * 29 + 7) & 255); }
